@@ -111,6 +111,16 @@ def pool_entry(name):
         pick = rng.sample(ids, len(ids) // 10)
         val = {"rand_disabled": {"disable": True}, "rand_unfixable": {"fixable": False}, "rand_warning": {"severity": "Warning"}}[name]
         return "jcl", [{"rule": {rid: dict(val) for rid in pick}}]
+    if name == "prereq_disabled":
+        # every rule that another rule declares as a prerequisite is switched off (ordering inside a
+        # sub-phase is anchored on prerequisites)
+        a, c = vsgapi.make_config()
+        f, r = vsgapi.build([""], a, c, configure=False)
+        pre = set()
+        for o in r.rules:
+            for q in getattr(o, "prerequisites", []) or []:
+                pre.add(q if isinstance(q, str) else getattr(q, "unique_id", str(q)))
+        return "jcl", [{"rule": {rid: {"disable": True} for rid in sorted(pre) if rid in db}}]
     if name == "ws_rules_off":
         return "jcl", [{"rule": {"whitespace_001": {"disable": True}, "whitespace_200": {"disable": True}, "comment_010": {"disable": True}}}]
     if name == "ws_rules_warning":
